@@ -102,6 +102,9 @@ def run(ctx: Ctx) -> None:
     from ..tables import t15_isolation
     t15_isolation.run(ctx)
     t15_isolation.run_transforms(ctx)
+    with ctx.parallel():
+        t15_isolation.run_copy_evaluation(ctx)
+    ctx.floor("T15.copy-evaluation", 14)
 
 
 def mutants(prog):
@@ -139,6 +142,8 @@ def mutants(prog):
         ("image accessor mutates", "deepali.data.image", "ImageBatch.normalize", "U.normalize_image(self, ", "U.normalize_image(self, inplace=True, ", "E1.accessor"),
         ("svf inverse: buffer registered on the original", "deepali.spatial.nonrigid", "StationaryVelocityFieldTransform.inverse", "inv.register_buffer('u', u, persistent=False)", "self.register_buffer('u', u, persistent=False)", "T15.transform-accessor"),
         ("pyramid: in-place flag setter on the image's own grids", "deepali.data.image", "ImageBatch.pyramid", "grids = tuple((grid.align_corners(align_corners) for grid in self._grid))", "grids = tuple((grid.align_corners_(align_corners) for grid in self._grid))", "T15.accessor"),
+        ("isotropic scaling: in-place reciprocal of the shared parameter", "deepali.spatial.linear", "IsotropicScaling.tensor", "scales = 1 / scales", "scales = scales.reciprocal_()", "T15.copy-evaluation"),
+        ("translation: offset negated in place", "deepali.spatial.linear", "Translation.tensor", "offset = -offset", "offset = offset.neg_()", "T15.copy-evaluation"),
     ]
     for name, mod, fn, old, new, expect in specs:
         ov = source_sub(prog, mod, fn, old, new)
